@@ -67,3 +67,34 @@ func VH_C11_ApkSigningBlock() {
 		vhAssert(len(block) == n-32, "block-is-the-region-inside-the-frame")
 	}
 }
+
+// H05.apk-block / H01.apk-block: the signing block relic writes has the
+// layout the APK Signature Scheme v2 prescribes (size of block excluding
+// this field, sequence of length-prefixed ID-value pairs, size again, magic)
+// with exactly one pair carrying the v2 scheme ID and the signer blob, and
+// relic's own locator, given an archive with that block in front of the
+// directory, returns exactly the pair sequence.
+func VH_C05_ApkSigningBlockLayout() {
+	vhMaxLen(256)
+	vhLoopBound(200)
+	sblob := vhBytes("signers", vhConcretize(vhInt("signers-bytes", 0, 3), 4))
+	block := makeSigBlock(sblob)
+	n := len(block)
+	le := binary.LittleEndian
+	vhAssert(n == 8+8+4+len(sblob)+8+16, "block-length")
+	vhAssert(le.Uint64(block) == uint64(n-8) && le.Uint64(block[n-24:]) == uint64(n-8), "both-size-fields-exclude-the-first")
+	vhAssert(string(block[n-16:]) == "APK Sig Block 42", "magic-last")
+	vhAssert(le.Uint64(block[8:]) == uint64(4+len(sblob)) && le.Uint32(block[16:]) == 0x7109871a, "one-pair-with-the-v2-id")
+	vhAssert(bytes.Equal(block[20:20+len(sblob)], sblob), "pair-value-is-the-signer-blob")
+	p := vhFSPath("signed.apk")
+	vhFSPut(p, vhApkZip(block))
+	f, err := os.Open(p)
+	if err != nil {
+		return
+	}
+	_, pairs, err := getSigBlock(f)
+	vhAssert(err == nil && bytes.Equal(pairs, block[8:n-24]), "own-locator-returns-the-pair-sequence")
+	vhReach("located") // vh:require located
+}
+
+func VH_C01_ApkSigningBlockFound() { VH_C05_ApkSigningBlockLayout() }
